@@ -6,3 +6,4 @@ pub mod sim;
 pub mod rows;
 pub mod simmeta;
 pub mod gen;
+pub mod qenv;
